@@ -49,6 +49,8 @@ def extract_c08(repo):
 
 def run(pid, cfg, repo, verif):
     out = {"summary": {}, "obligations": 0, "discharged": 0, "cmd": "", "undecided": [], "violations": []}
+    if cfg == "lemmas":
+        return run_lemmas(verif, out)
     if cfg != "c08":
         return out
     t0 = time.time()
@@ -94,6 +96,37 @@ def run(pid, cfg, repo, verif):
                 out["violations"].append(("C08.V.from_input.ensures (Verus)", msg))
             else:
                 out["undecided"].append("verus rejected the extracted file for a reason other than a failed obligation: %s" % msg[-800:])
+    finally:
+        import shutil
+        shutil.rmtree(d, ignore_errors=True)
+    return out
+
+
+def run_lemmas(verif, out):
+    """Spec-only composition lemmas over the contracts (no repository code): while rule for MUL/DIV,
+    rank => bounded return, MUL word-count bound."""
+    t0 = time.time()
+    f = os.path.join(verif, "verus", "lemma_loops.rs")
+    base = os.environ.get("VERIF_SCRATCH") or os.environ.get("TMPDIR") or "/var/tmp"
+    d = tempfile.mkdtemp(prefix="verif-verus.", dir=base)
+    try:
+        r = subprocess.run(["verus", f, "--output-json", "--time"], capture_output=True, text=True, timeout=600, cwd=d)
+        txt = r.stdout
+        try:
+            js = json.loads(txt[txt.index("{"):])
+        except Exception:
+            js = None
+        res = (js or {}).get("verification-results", {})
+        verified, errors = res.get("verified", 0), res.get("errors", 0)
+        out["cmd"] = "verus verus/lemma_loops.rs --output-json --time"
+        out["summary"] = {"backend": "verus", "file": "verus/lemma_loops.rs", "lemmas_verified": verified, "errors": errors,
+                          "wall_s": round(time.time() - t0, 1),
+                          "what": "while rule for MUL and DIV over the per-pass contracts, rank => bounded return, MUL word-count bound (spec-only, no repository code)"}
+        if res.get("success") and errors == 0 and verified > 0:
+            out["obligations"] = verified
+            out["discharged"] = verified
+        else:
+            out["undecided"].append("verus lemma file not accepted: %s" % ((r.stderr or txt)[-600:]))
     finally:
         import shutil
         shutil.rmtree(d, ignore_errors=True)
